@@ -276,6 +276,16 @@ def check(ctx):
                     ctx.violation("R-C19.3", f"gnu-predefined:{rel}:{','.join(sorted(bad))}", f"{rel}:{it.line}: the identifier {sorted(bad)} is predefined as the macro 1 by cpp in the GNU dialects only (-std=gnu99 / gnu11): the line means something else there",
                                   file="utils/fake_libc_include/" + rel, line=it.line, construct=(it.a if it.kind == "text" else it.a).strip()[:80])
 
+    guards = {}
+    for rel, f in sorted(fs.items()):
+        if f.guard:
+            guards.setdefault(f.guard, []).append(rel)
+    for gname, rels in sorted(guards.items()):
+        ok = len(rels) == 1
+        ctx.oblige("R-C19.2", f"include guard {gname} belongs to one file", ok, nontrivial=True)
+        if not ok:
+            ctx.violation("R-C19.2", f"guard-collision:{gname}", f"the files {rels} use the same include guard macro {gname}: whichever is included first switches the others off (their declarations never appear)",
+                          file="utils/fake_libc_include/" + rels[-1])
     # ---- R-C19.4 ---------------------------------------------------------------------
     ex, g = e1.get()
     rec = GR.Recognizer(g)
@@ -300,6 +310,30 @@ def check(ctx):
                 all_typedefs.setdefault(n, set()).add(d)
         for n, m in w.macros.items():
             all_macros.setdefault(n, set()).add((m[2], tuple(m[0]) if m[0] is not None else None, m[1]))
+    # every header that pulls in the central typedef list makes ALL of its names available
+    central = set(wk.run("_fake_typedefs.h").typedefs)
+    reach = {}
+
+    def reaches(rel, seen=()):
+        if rel in reach:
+            return reach[rel]
+        r = rel == "_fake_typedefs.h"
+        if not r and rel not in seen:
+            for it in fs[rel].items:
+                if it.kind == "include" and it.a != "computed":
+                    tgt = H.resolve(rel, it.a, it.b, fs)
+                    if tgt and reaches(tgt, seen + (rel,)):
+                        r = True
+        reach[rel] = r
+        return r
+    for rel in sorted(fs):
+        if reaches(rel):
+            got = set(wk.run(rel).typedefs)
+            missing = sorted(central - got)
+            ctx.oblige("R-C19.6", f"{rel} provides the central type names", not missing, nontrivial=True)
+            if missing:
+                ctx.violation("R-C19.6", f"typedefs-switched-off:{rel}", f"{rel} includes _fake_typedefs.h but after it {len(missing)} of its type names are not declared (e.g. {missing[:3]}): something before the include (a guard macro, a conditional) switches the list off",
+                              file="utils/fake_libc_include/" + rel)
     ctx.unit("declarations recognised by the grammar model (over all entry headers)", total_decls)
     if len(all_typedefs) < 150:
         raise AnalysisError(f"only {len(all_typedefs)} typedef names extracted from the fake headers (confirmed by reading: > 250)")
@@ -397,7 +431,22 @@ def _check_pipeline(ctx):
     params = [a.arg for a in pf.args.args]
     if params[:3] != ["filename", "cpp_path", "cpp_args"]:
         raise AnalysisError(f"preprocess_file parameters changed: {params}")
-    calls = [n for n in ast.walk(pf) if isinstance(n, ast.Call) and S.unparse(n.func).split(".")[-1] in ("check_output", "run", "Popen", "call", "check_call", "system", "popen")]
+    SPAWN = ("check_output", "run", "Popen", "call", "check_call", "system", "popen")
+    # nothing in this module remembers results across calls: cpp runs (and the file is read) every time
+    for fname, f_ in sorted(mod.functions.items()):
+        memo = [S.unparse(d) for d in f_.decorator_list if any(w in S.unparse(d) for w in ("cache", "memo"))]
+        ctx.oblige("R-C19.8", f"{fname} is not memoised", not memo, nontrivial=bool(f_.decorator_list))
+        if memo:
+            ctx.violation("R-C19.8", f"memoised:{fname}", f"pycparser.{fname} is decorated with {memo}: a second parse_file / preprocess_file call with the same arguments returns the remembered cpp output even though the file (or a header) has changed - "
+                          "not what preprocessing and parsing by hand give", file=mod.rel, function=fname, line=f_.lineno)
+    calls = [n for n in ast.walk(pf) if isinstance(n, ast.Call) and S.unparse(n.func).split(".")[-1] in SPAWN]
+    if not calls:
+        # the spawn may sit in a module-level helper called from preprocess_file with the command as its argument
+        for c in ast.walk(pf):
+            if isinstance(c, ast.Call) and isinstance(c.func, ast.Name) and c.func.id in mod.functions and c.args:
+                inner = [n for n in ast.walk(mod.functions[c.func.id]) if isinstance(n, ast.Call) and S.unparse(n.func).split(".")[-1] in SPAWN]
+                if len(inner) == 1:
+                    raise AnalysisError(f"preprocess_file runs cpp through the helper {c.func.id}(): the command-line assembly is not followed across the call (idiom changed)")
     if len(calls) != 1 or not calls[0].args:
         raise AnalysisError("preprocess_file: expected exactly one process-spawning call with a positional command")
     call = calls[0]
